@@ -6,10 +6,15 @@ from ..core import AnalysisError, u, walk_local, enclosing_stmt
 from ..lib import (construct, std_facts, def_of, facts_imply, calls_of_node,
                    in_subtree, terminates_in_raise, facts_at)
 from .wrapper import WrapperModel, REQ
+from .common import allowed_stores, fresh_kwarg_defaults
 
 
 def run(ctx):
   prog = ctx.prog
+  allowed_stores(ctx, 'C10.registration', {'config._get_validated_required_kwargs': set(), 'config._get_kwarg_defaults': set(),
+                                          'config._order_by_signature': set()},
+                 'which parameters are REQUIRED is a function of the signature and the lists given at this registration only')
+  fresh_kwarg_defaults(ctx, 'C10.registration')
   w = WrapperModel(ctx)
   f, g, facts = w.f, w.g, w.facts
   con = construct(f)
